@@ -15,6 +15,7 @@ import (
 	"strings"
 
 	v3 "github.com/projectcalico/api/pkg/apis/projectcalico/v3"
+	"github.com/sirupsen/logrus"
 
 	"github.com/projectcalico/calico/felix/calc"
 	"github.com/projectcalico/calico/felix/dispatcher"
@@ -163,6 +164,7 @@ type sys struct {
 	rec   *recorder
 	scan  *scanStub
 	inSync bool
+	dead   bool
 
 	tiers   map[string]tierRec
 	pols    map[string]polRec
@@ -407,8 +409,40 @@ func xarg(w []string) string {
 	return ""
 }
 
-// execHigh executes one generated (high-level) op on the real graph and emits the protocol lines.
+// execHigh runs execInner and turns a panic of the REAL code into an oracle failure carrying the
+// history (signature `sorted-panic` for the PolicySorter's "tier present in map but not the sorted
+// tree" panic, `panic` otherwise); the rest of the case is skipped.
 func execHigh(h *rt.H, s **sys, op string) {
+	if *s != nil && (*s).dead && strings.Fields(op)[0] != "new" {
+		return
+	}
+	defer func() {
+		r := recover()
+		if r == nil {
+			return
+		}
+		msg := fmt.Sprint(r)
+		if e, ok := r.(*logrus.Entry); ok {
+			msg = e.Message
+		}
+		sig := "panic"
+		if strings.Contains(msg, "tier present in map but not the sorted tree") {
+			sig = "sorted-panic"
+		}
+		q := *s
+		q.dead = true
+		h.OracleFail(sig, "the real code panicked: "+msg, map[string]any{"ops": append([]string(nil), q.ops...)})
+		for _, l := range q.rec.lines {
+			h.Op(l, "ok")
+		}
+		h.Op("noop "+strings.TrimPrefix(op, "noop "), "panic")
+		h.Count("panic:" + sig)
+	}()
+	execInner(h, s, op)
+}
+
+// execInner executes one generated (high-level) op on the real graph and emits the protocol lines.
+func execInner(h *rt.H, s **sys, op string) {
 	w := strings.Fields(op)
 	if w[0] == "noop" {
 		w = w[1:]
@@ -489,6 +523,17 @@ func execHigh(h *rt.H, s **sys, op string) {
 			out = "none"
 			if len(q.flushCalls) > 0 {
 				out = strings.Join(q.flushCalls, " ; ")
+			}
+			// the REAL ActiveRulesCalculator's active set (what it told the rule scanner)
+			var act []string
+			for k := range q.scan.active {
+				act = append(act, showKey(k))
+			}
+			sort.Strings(act)
+			if len(act) == 0 {
+				out += " A:-"
+			} else {
+				out += " A:" + strings.Join(act, ",")
 			}
 			q.oracle(h)
 		}
